@@ -114,53 +114,43 @@ pub fn clear_rules() {
 }
 
 pub fn append_rule(rule: Arc<Rule>) -> bool {
-    if CURRENT_RULES
-        .lock()
-        .unwrap()
+    let mut global_rule_map = CURRENT_RULES.lock().unwrap();
+    if global_rule_map
         .get(&rule.resource)
         .unwrap_or(&HashSet::new())
         .contains(&rule)
     {
         return false;
     }
-    match rule.is_valid() {
-        Ok(_) => {
-            CURRENT_RULES
-                .lock()
-                .unwrap()
-                .entry(rule.resource.clone())
-                .or_default()
-                .insert(Arc::clone(&rule));
-            BREAKER_RULES
-                .write()
-                .unwrap()
-                .entry(rule.resource.clone())
-                .or_default()
-                .insert(Arc::clone(&rule));
-        }
-        Err(err) => logging::warn!(
+    if let Err(err) = rule.is_valid() {
+        logging::warn!(
             "[Hot Spot append_rule] Ignoring invalid flow rule {:?}, reason: {:?}",
             rule,
             err
-        ),
+        );
+        return true;
     }
+    global_rule_map
+        .entry(rule.resource.clone())
+        .or_default()
+        .insert(Arc::clone(&rule));
+    // same lock order as `load_rules`: CURRENT_RULES, BREAKER_MAP, BREAKER_RULES
+    let mut global_breaker_map = BREAKER_MAP.write().unwrap();
+    let mut breaker_rules = BREAKER_RULES.write().unwrap();
+    let res_rules = breaker_rules.entry(rule.resource.clone()).or_default();
+    res_rules.insert(Arc::clone(&rule));
     let mut placeholder = Vec::new();
-    let new_tcs_of_res = build_resource_circuit_breaker(
+    let new_cbs_of_res = build_resource_circuit_breaker(
         &rule.resource,
-        BREAKER_RULES.read().unwrap().get(&rule.resource).unwrap(),
-        BREAKER_MAP
-            .write()
-            .unwrap()
+        res_rules,
+        global_breaker_map
             .get_mut(&rule.resource)
             .unwrap_or(&mut placeholder),
     );
-    if !new_tcs_of_res.is_empty() {
-        BREAKER_MAP
-            .write()
-            .unwrap()
-            .entry(rule.resource.clone())
-            .or_default()
-            .push(Arc::clone(&new_tcs_of_res[0]));
+    if new_cbs_of_res.is_empty() {
+        global_breaker_map.remove(&rule.resource);
+    } else {
+        global_breaker_map.insert(rule.resource.clone(), new_cbs_of_res);
     }
     true
 }
